@@ -20,11 +20,14 @@ MN = "legal winner thank year wave sausage worth useful legal winner thank yello
 def cases(rng, tier):
     n = 10 if tier == "quick" else 400
     yield from _hist_cases(rng, tier)
-    for _ in range(n):
+    # export nodes deep in the tree as well: the depth byte crosses 0x7f/0x80 and approaches 0xff
+    deep = [127, 128, 200, 251] if tier == "quick" else [126, 127, 128, 129, 130, 200, 250, 251]
+    deep = [rng.choice(deep[:2]), rng.choice(deep[2:])] if tier == "quick" else deep
+    for j in range(n + len(deep)):
         t = rng.choice("01")
         e = bytes(rng.getrandbits(8) for _ in range(16)).hex()
         full = "ent:%s:-:-:%s" % (sx(e), t)
-        depth = rng.randint(0, 6)
+        depth = rng.randint(0, 6) if j >= len(deep) else deep[j]
         exp = [rng.choice([0, 1, 44 + H, H, H + 1, 7, 2 ** 31 - 1]) for _ in range(depth)]
         w = impl.make_wallet(full)
         node = w.master.derive_path(exp[:5]) if depth <= 5 else w.master.derive_path(exp)
@@ -74,6 +77,9 @@ def _hist_cases(rng, tier):
         yield "hist %s %s" % (wo, ";".join(ops)), "shared-watch-only-object"
 
 
+_base_cache = {}
+
+
 def _split(line):
     if " #" in line:
         body, meta = line.split(" #", 1)
@@ -108,7 +114,14 @@ def oracle(line, out):
     if v is None:
         return "watch-only wallet failed on a non-hardened sub-path"
     fw = impl.make_wallet(full)
-    base = fw.master.derive_path(exp)
+    ck = (full, meta[1])
+    if ck not in _base_cache:
+        _base_cache.clear()
+        _base_cache[ck] = impl.make_wallet(full).master.derive_path(exp)
+    b0 = _base_cache[ck]
+    import btc_hd_wallet.bip32 as _b32
+    base = _b32.PrvKeyNode(key=b0.key, chain_code=b0.chain_code, index=b0.index, depth=b0.depth, testnet=b0.testnet,
+                           parent_fingerprint=b0.parent_fingerprint)     # a fresh object every time
     ref = base.derive_path(sub)
     if op == "w_bypath":
         f = v.split(" ")
